@@ -19,4 +19,9 @@ HARNESSES = [
     NAMES("wildcard_long", 1, 10, tier="thorough"),
     NAMES("name_rule", 2, 5, renames={"crypto/keyformat/x509.c": ["psX509AuthenticateCert", "validateDateRange"]}),
 ]
-PROPERTY = dict(level="model_checking", explanation="", bounds="", outside="", assumptions=[])
+PROPERTY = dict(level='model_checking',
+    claim='wildcardMatch equals a label-based RFC 6125 reference on all strings up to the bound; the name section of matrixValidateCertsExt accepts exactly when a SAN of the right kind matches (dNSName incl. wildcard, rfc822Name, 4-octet iPAddress as exact dotted quad) or, with no supported SAN, the subject CN.',
+    bounds='names <= 6 bytes (thorough 10) over all 256 byte values; SAN lists of <= 2 entries of any kind; expected names <= 16 bytes',
+    outside='longer names; psX509ValidateGeneralName itself is used as the precondition on the expected name, not decided',
+    explanation='wildcardMatch equals a label-based RFC 6125 reference on all strings up to the bound; the name section of matrixValidateCertsExt accepts exactly when a SAN of the right kind matches (dNSName incl. wildcard, rfc822Name, 4-octet iPAddress as exact dotted quad) or, with no supported SAN, the subject CN.',
+    assumptions=[])
